@@ -41,7 +41,9 @@ EXTENDS Integers, Sequences, FiniteSets, TLC, Json
 CONSTANTS NC,          \* callers 1..NC
           OpsPer,      \* CAS calls per caller
           Backends,    \* subset of {"consul", "etcd", "memberlist"}: the stores of this run
-          Limit,       \* attempts per call (10 everywhere; consul: Config.MaxCasRetries)
+          Limits,      \* the retry limits of this run (attempts per call).  10 is every backend's default; the
+                       \* harness sets smaller ones (consul Config.MaxCasRetries, etcd Config.MaxRetries,
+                       \* memberlist KV.maxCasRetries) so that exhaustion by conflicts alone is reachable
           MaxErr,      \* bound of the model: error-with-retry outcomes per call
           Secondaries, \* subset of {"none", "consul", "memberlist"}: "none" = no MultiClient, otherwise
                        \* a MultiClient mirrors every successful CAS into a second store of that kind
@@ -57,6 +59,7 @@ Nil     == {}
 
 VARIABLES Backend,  \* the store under test, chosen in Init and never changed (one TLC run covers all)
           Secondary,
+          Limit,    \* its retry limit, likewise
           cell,     \* [val, ver]
           ctr,      \* Consul: the store-wide index the next ModifyIndex is taken from
           cl,       \* cl[c] = [pc, op, att, errs, sval, sver]
@@ -67,8 +70,8 @@ VARIABLES Backend,  \* the store under test, chosen in Init and never changed (o
                     \* was last called with the value left by write number `last` (of `applied`)
           hist      \* behaviour so far (not in the VIEW)
 
-vars == <<Backend, Secondary, cell, ctr, cl, applied, res, mirror, wt, hist>>
-view == <<Backend, Secondary, cell, ctr, cl, applied, res, mirror, wt>>
+vars == <<Backend, Secondary, Limit, cell, ctr, cl, applied, res, mirror, wt, hist>>
+view == <<Backend, Secondary, Limit, cell, ctr, cl, applied, res, mirror, wt>>
 Watchers == 1..NW
 
 Tags(v)        == {<<t[1], t[2]>> : t \in v}
@@ -87,6 +90,7 @@ After(n) == IF n = 0 THEN Nil
 (* the MultiClient can be built (kv.NewClient, store "multi") from the in-memory Consul store *)
 (* and a memberlist KV, in either order                                                        *)
 Init == /\ Backend \in Backends
+        /\ Limit \in Limits
         /\ Secondary \in {s \in Secondaries : s = "none" \/ (s # Backend /\ Backend # "etcd")}
         /\ cell = [val |-> Nil, ver |-> 0]
         /\ ctr = 1
@@ -130,12 +134,12 @@ Begin(c) ==
     /\ cl[c].pc = "idle" /\ cl[c].op < OpsPer
     /\ cl' = [cl EXCEPT ![c] = [pc |-> "inf", op |-> @.op + 1, att |-> 1, errs |-> 0,
                                 sval |-> cell.val, sver |-> ReadVer(0)]]
-    /\ UNCHANGED <<Backend, Secondary, cell, ctr, applied, res, mirror, wt>>
+    /\ UNCHANGED <<Backend, Secondary, Limit, cell, ctr, applied, res, mirror, wt>>
     /\ Step("begin", c, FALSE, "fin", cell.val)
 
 (* the attempt did not write: next attempt (re-read, f entered again) or the call fails *)
 NoWrite(a, c, rf, retry, errs) ==
-    /\ UNCHANGED <<Backend, Secondary, cell, ctr, applied, mirror, wt>>
+    /\ UNCHANGED <<Backend, Secondary, Limit, cell, ctr, applied, mirror, wt>>
     /\ IF retry /\ cl[c].att < Limit
        THEN /\ cl' = [cl EXCEPT ![c] = [@ EXCEPT !.att = @ + 1, !.errs = errs, !.sval = cell.val,
                                                  !.sver = ReadVer(cl[c].sver)]]
@@ -157,7 +161,7 @@ Put(c, rf) ==
                /\ res' = [res EXCEPT ![c][k] = "ok"]
                /\ mirror' = Mirrored(out)
                /\ cl' = [cl EXCEPT ![c] = IdleRec(k)]
-               /\ UNCHANGED <<Backend, Secondary, wt>>
+               /\ UNCHANGED <<Backend, Secondary, Limit, wt>>
                /\ Step("put", c, rf, "ok", Nil)
           ELSE \* consul, etcd: always another attempt; memberlist: only if f said retry
                NoWrite("put", c, rf, Backend # "memberlist" \/ rf, cl[c].errs)
@@ -166,7 +170,7 @@ Decline(c) ==
     /\ cl[c].pc = "inf"
     /\ cl' = [cl EXCEPT ![c] = IdleRec(@.op)]
     /\ res' = [res EXCEPT ![c][cl[c].op] = "noop"]
-    /\ UNCHANGED <<Backend, Secondary, cell, ctr, applied, mirror, wt>>
+    /\ UNCHANGED <<Backend, Secondary, Limit, cell, ctr, applied, mirror, wt>>
     /\ Step("decline", c, FALSE, "ok", Nil)
 
 Err(c, rf) ==
@@ -191,7 +195,7 @@ Same(c, rf) ==
                     /\ res' = [res EXCEPT ![c][k] = "ok"]
                     /\ mirror' = Mirrored(out)
                     /\ cl' = [cl EXCEPT ![c] = IdleRec(k)]
-                    /\ UNCHANGED <<Backend, Secondary, wt>>
+                    /\ UNCHANGED <<Backend, Secondary, Limit, wt>>
                     /\ Step("same", c, rf, "ok", Nil)
                ELSE NoWrite("same", c, rf, TRUE, cl[c].errs)
           ELSE IF ~CanWrite(c)
@@ -199,7 +203,7 @@ Same(c, rf) ==
                ELSE IF rf /\ cl[c].att < Limit
                     THEN /\ cl[c].errs < MaxErr
                          /\ cl' = [cl EXCEPT ![c] = [@ EXCEPT !.pc = "sleep", !.errs = @ + 1]]
-                         /\ UNCHANGED <<Backend, Secondary, cell, ctr, applied, res, mirror, wt>>
+                         /\ UNCHANGED <<Backend, Secondary, Limit, cell, ctr, applied, res, mirror, wt>>
                          /\ Step("same", c, rf, "sleep", Nil)
                     ELSE NoWrite("same", c, rf, FALSE, cl[c].errs)
 
@@ -210,7 +214,7 @@ Tick ==
     /\ cl' = [c \in Clients |-> IF c \in Sleepers
                                 THEN [cl[c] EXCEPT !.pc = "inf", !.att = @ + 1, !.sval = cell.val, !.sver = ReadVer(cl[c].sver)]
                                 ELSE cl[c]]
-    /\ UNCHANGED <<Backend, Secondary, cell, ctr, applied, res, mirror, wt>>
+    /\ UNCHANGED <<Backend, Secondary, Limit, cell, ctr, applied, res, mirror, wt>>
     /\ LET r == [a |-> "tick", c |-> 0, rf |-> FALSE, e |-> "fin", in |-> cell.val, val |-> cell.val, mir |-> mirror,
                  w |-> Sleepers]
        IN hist' = IF Emit THEN Append(hist, r) ELSE <<r>>
@@ -224,14 +228,14 @@ Watch(w) ==
     /\ ~wt[w].on
     /\ wt' = [wt EXCEPT ![w] = [on |-> TRUE, from |-> Len(applied),
                                 last |-> IF Backend = "consul" /\ Len(applied) > 0 THEN Len(applied) - 1 ELSE Len(applied)]]
-    /\ UNCHANGED <<Backend, Secondary, cell, ctr, cl, applied, res, mirror>>
+    /\ UNCHANGED <<Backend, Secondary, Limit, cell, ctr, cl, applied, res, mirror>>
     /\ Step("watch", w, FALSE, "", cell.val)
 
 Deliver(w, i) ==
     /\ wt[w].on /\ i \in (wt[w].last + 1)..Len(applied)
     /\ Backend = "etcd" => i = wt[w].last + 1
     /\ wt' = [wt EXCEPT ![w].last = i]
-    /\ UNCHANGED <<Backend, Secondary, cell, ctr, cl, applied, res, mirror>>
+    /\ UNCHANGED <<Backend, Secondary, Limit, cell, ctr, cl, applied, res, mirror>>
     /\ Step("deliver", w, FALSE, "", After(i))
 
 (* Outside C07: kv.Client.Delete by somebody else.  etcd mock: the entry is dropped, the next  *)
@@ -240,7 +244,7 @@ Deliver(w, i) ==
 Delete ==
     /\ WithDelete /\ cell.ver # 0 /\ Backend # "memberlist"
     /\ cell' = [val |-> Nil, ver |-> 0]
-    /\ UNCHANGED <<Backend, Secondary, ctr, cl, applied, res, mirror, wt>>
+    /\ UNCHANGED <<Backend, Secondary, Limit, ctr, cl, applied, res, mirror, wt>>
     /\ Step("delete", 0, FALSE, "", Nil)
 
 Next == \/ \E c \in Clients : \/ Begin(c)
